@@ -582,7 +582,7 @@ package mcp
 // ---------------------------------------------------------------------------------------------
 // 'misses' is, by definition, the number of consecutive failed pings: reset by an answered ping, incremented by any
 // error other than method-not-found (which ends keep-alive).
-//@ func startKeepalive$1 [C13]
+//@ func startKeepalive$1 [C13, C05]
 //@   ghostvar misses int = 0
 //@   on call session.Ping: misses = result == nil ? 0 : (errIs(result, jsonrpc2.ErrMethodNotFound) ? misses : misses + 1)
 //@   ghostvar sincePing bool = false
@@ -607,7 +607,7 @@ package mcp
 //@   loop 1: invariant @still-supported calls(ping) == 0 || lastResult(ping, 0) == nil || !errIs(lastResult(ping, 0), jsonrpc2.ErrMethodNotFound)
 
 // The cancel function is published before the goroutine starts and the threshold is normalised to at least 1.
-//@ func startKeepalive [C13]
+//@ func startKeepalive [C13, C05]
 //@   track context.WithCancel as withCancel
 //@   modifies *
 //@   requires cancelPtr != nil
@@ -677,7 +677,7 @@ package mcp
 //@ pred batchOK(t *ioConn, id jsonrpc2.ID) := id in t.batches ==> rawGet(t.batches, id) != nil && (id in rawGet(t.batches, id).unresolved)
 //@      && rawGet(rawGet(t.batches, id).unresolved, id) >= 0 && rawGet(rawGet(t.batches, id).unresolved, id) < len(rawGet(t.batches, id).responses)
 
-//@ func (*ioConn).updateBatch [C02]
+//@ func (*ioConn).updateBatch [C02, C01, C04]
 //@   nopanic explicit
 //@   requires t != nil && resp != nil && batchOK(t, resp.ID)
 //@   modifies mapOf(t.batches), mapOf(t.batches[resp.ID].unresolved), elems(t.batches[resp.ID].responses)
@@ -713,7 +713,7 @@ package mcp
 // The front gate of the streamable handler: a request is handed on (to the stateless or stateful path) at most once,
 // never after a rejection, only if the loopback-Host, cross-origin and protocol-version-header gates pass, and only
 // with its body wrapped in the size limiter whenever a limit is configured.
-//@ func (*StreamableHTTPHandler).ServeHTTP [C12]
+//@ func (*StreamableHTTPHandler).ServeHTTP [C12, C11, C10]
 //@   track util.IsLoopback as loopback
 //@   track http.MaxBytesReader as limit
 //@   track http.Error as reject
@@ -777,14 +777,14 @@ package mcp
 //@   ensures @stops-for-good at(unlocked, i.timer) == nil && (at(locked, i.timer) != nil ==> !at(unlocked, ghostOf("armed", at(locked, i.timer))))
 
 // The session table (StreamableHTTPHandler.mu): every entry is a live sessionInfo.
-//@ monitor hmu lock StreamableHTTPHandler.mu as h [C11]
+//@ monitor hmu lock StreamableHTTPHandler.mu as h [C11, C10]
 //@   protects fields(StreamableHTTPHandler.sessions), maps("map[string]*sessionInfo")
 //@   invariant @entries-are-sessions forall k string :: {inDom(h.sessions, k)} inDom(h.sessions, k) ==> rawGet(h.sessions, k) != nil
 
 // lookupSession: the table is consulted (under the lock) for every request that carries a session id; an id that is
 // not in the table gets 404, a session created by an authenticated user is handed only to requests authenticated as
 // that user (others get 403), and nothing else is rejected.
-//@ func (*StreamableHTTPHandler).lookupSession [C11]
+//@ func (*StreamableHTTPHandler).lookupSession [C11, C10, C12]
 //@   track http.Error as reject
 //@   track auth.TokenInfoFromContext as tok
 //@   ghost entry := at(unlocked, h.sessions[sessionID])
@@ -799,7 +799,7 @@ package mcp
 
 // GET and DELETE on a stateful endpoint: without a session id 400; otherwise lookupSession decides, and only a request
 // it lets through reaches the session (GET: its transport; DELETE: the session is closed, 204).
-//@ func (*StreamableHTTPHandler).serveStatefulDELETE [C11]
+//@ func (*StreamableHTTPHandler).serveStatefulDELETE [C11, C10]
 //@   track lookupSession as lookup
 //@   track (*ServerSession).Close as closeSession
 //@   track http.Error as reject
@@ -890,7 +890,7 @@ package mcp
 // The onClose hook of a stateful session: once the session is closed (DELETE, idle timeout, server-side Close) its id
 // is no longer in the table - so every later request naming it gets 404 from lookupSession - and its idle timer is
 // stopped for good.
-//@ func (*StreamableHTTPHandler).serveStatefulPOST$1 [C11]
+//@ func (*StreamableHTTPHandler).serveStatefulPOST$1 [C11, C10]
 //@   track (*sessionInfo).stopTimer as stop
 //@   modifies *
 //@   ghost sid := old(transport.SessionID)
@@ -963,23 +963,23 @@ package mcp
 //@   assert at call Elicit: @the-request-travels-with-the-context-given $1 == ctx && $0 == ss
 //@   assert at call CreateMessageWithTools: @the-request-travels-with-the-context-given $1 == ctx && $0 == ss
 //@   assert at call ListRoots: @the-request-travels-with-the-context-given $1 == ctx && $0 == ss
-//@ func (*LoggingHandler).handle [C10]
+//@ func (*LoggingHandler).handle [C10, C03]
 //@   track Log as send
 //@   requires h != nil
 //@   modifies *
 //@   ensures @a-record-is-sent-at-most-once calls(send) <= 1
 //@   assert at call Log: @a-record-travels-with-the-callers-context $1 == ctx && $0 == h.ss
-//@ func (*ServerSession).Log [C10]
+//@ func (*ServerSession).Log [C10, C03]
 //@   track handleNotify as send
 //@   modifies *
 //@   ensures @sent-at-most-once calls(send) <= 1
 //@   assert at call handleNotify: @the-message-travels-with-the-callers-context $0 == ctx && $1 == notificationLoggingMessage
-//@ func (*ServerSession).NotifyProgress [C10]
+//@ func (*ServerSession).NotifyProgress [C10, C03]
 //@   track handleNotify as send
 //@   modifies *
 //@   ensures @sent-once calls(send) == 1 && result == callResult(send, 1, 0)
 //@   assert at call handleNotify: @the-message-travels-with-the-callers-context $0 == ctx && $1 == notificationProgress
-//@ func (*ServerSession).Ping [C10]
+//@ func (*ServerSession).Ping [C10, C13]
 //@   track handleSend as send
 //@   modifies *
 //@   assert at call handleSend: @the-message-travels-with-the-callers-context $0 == ctx && $1 == methodPing
@@ -1487,7 +1487,7 @@ package mcp
 // processStreamFrom reads one HTTP body of a logical stream whose cursor so far is resumeID. The cursor it hands back
 // is the id of the last event received in this body, or resumeID if the body brought none: a cursor is never
 // forgotten. The synthetic "terminated without response" error is produced only when there is no cursor at all.
-//@ func (*streamableClientConn).fail [C09]
+//@ func (*streamableClientConn).fail [C09, C01, C04]
 //@   nopanic
 //@   requires c != nil
 //@   modifies extern
@@ -1534,10 +1534,10 @@ package mcp
 // connection stays usable); a 404 that is not such a rejection means the session is gone (ErrSessionMissing, so no
 // DELETE is sent for it); on every failure the body is closed, on success it is handed on open.
 //@ pred transientStatus(c int) := c == 500 || c == 502 || c == 503 || c == 504 || c == 429
-//@ func isTransientHTTPStatus [C09]
+//@ func isTransientHTTPStatus [C09, C01, C04]
 //@   pure
 //@   ensures @exactly-the-transient-statuses result <==> transientStatus(statusCode)
-//@ func (*streamableClientConn).checkResponse [C09]
+//@ func (*streamableClientConn).checkResponse [C09, C01, C04, C13]
 //@   nopanic
 //@   track Close as closeBody
 //@   ghost status := old(resp.StatusCode)
@@ -1553,7 +1553,7 @@ package mcp
 // is bounded by the retry budget; a response is handed back exactly when there is no error.
 // (HTTP header names are case-insensitive; these two differ.)
 //@ axiom lower("Accept") != lower(lastEventIDHeader)
-//@ func (*streamableClientConn).connectSSE [C09]
+//@ func (*streamableClientConn).connectSSE [C09, C01]
 //@   nopanic
 //@   track Do as send
 //@   heapfacts off
@@ -1570,7 +1570,7 @@ package mcp
 //@   trusted
 //@   modifies extern
 
-//@ func calculateReconnectDelay [C09]
+//@ func calculateReconnectDelay [C09, C01]
 //@   nopanic
 //@   modifies extern
 
@@ -1588,7 +1588,7 @@ package mcp
 
 // callTool (C19, required members): a successful tool result never leaves the server with a null content array -
 // unless it is an input-required result, which carries no content.
-//@ func (*Server).callTool [C19]
+//@ func (*Server).callTool [C19, C16]
 //@   callee st.handler: modifies *
 //@   requires s != nil && req != nil && req.Params != nil
 //@   modifies *
@@ -1688,7 +1688,7 @@ package mcp
 // The streamable client's POST: every HTTP request it sends for a message - the first attempt and the retry after a
 // successful authorization alike - has had the standard headers derived from that very message (Mcp-Method,
 // Mcp-Name, Mcp-Param-*) put on the header of that very request, after the protocol-version header was set.
-//@ func (*streamableClientConn).Write [C12]
+//@ func (*streamableClientConn).Write [C12, C01, C04, C09]
 //@   track Do as post
 //@   track setStandardHeaders as std
 //@   track setMCPHeaders as base
@@ -2041,7 +2041,7 @@ package mcp
 // readBatch (C19: decoding never panics on arbitrary bytes): whatever the payload - empty, blank, truncated, not JSON
 // at all - the function returns (messages or an error); a batch has exactly one decoded message per element, in
 // order, and a decoding error of any element fails the whole batch.
-//@ func readBatch [C19]
+//@ func readBatch [C19, C02, C01]
 //@   track encoding/json.Unmarshal as stdDecCS
 //@   ensures @peer-data-is-decoded-case-sensitively calls(stdDecCS) == 0
 //@   nopanic
@@ -2110,7 +2110,7 @@ package mcp
 // checkRequest (C02, error codes): an unknown method is "not handled" (which processResult maps to method-not-found,
 // -32601); a call to a notification method, a notification to a call method and missing required params are invalid
 // requests (-32600); only a request that passes all four is handed to its method.
-//@ func checkRequest [C02]
+//@ func checkRequest [C02, C06, C12]
 //@   ensures @unknown-method !inDom(infos, req.Method) ==> result.1 != nil && errIs(result.1, jsonrpc2.ErrNotHandled)
 //@   ensures @known-method-accepted-or-invalid inDom(infos, req.Method) ==> result.1 == nil || errIs(result.1, jsonrpc2.ErrInvalidRequest)
 //@   ensures @accepted-request-gets-its-own-method-info result.1 == nil ==> inDom(infos, req.Method) && result.0 == infos[req.Method]
@@ -2225,7 +2225,7 @@ package mcp
 //@ func (*ServerRequest[P]).ClientInfo
 //@   trusted
 //@   modifies extern
-//@ func (*Server).discover [C02]
+//@ func (*Server).discover [C02, C07, C06]
 //@   nopanic
 //@   requires s != nil && req != nil && req.Session != nil
 //@   modifies *
@@ -2236,22 +2236,22 @@ package mcp
 //@ func (*ClientSession).ping [C02]
 //@   nopanic
 // The four list methods make their own params when the request carries none.
-//@ func (*Server).listTools [C02]
+//@ func (*Server).listTools [C02, C17]
 //@   nopanic
 //@   requires s != nil && req != nil
 //@   assume fsRep(s.tools) && s.opts.PageSize > 0   // server invariants: NewServer builds the sets and a positive page size; add/remove keep fsRep (their contracts)
 //@   modifies *
-//@ func (*Server).listPrompts [C02]
+//@ func (*Server).listPrompts [C02, C17]
 //@   nopanic
 //@   requires s != nil && req != nil
 //@   assume fsRep(s.prompts) && s.opts.PageSize > 0   // server invariants: NewServer builds the sets and a positive page size; add/remove keep fsRep (their contracts)
 //@   modifies *
-//@ func (*Server).listResources [C02]
+//@ func (*Server).listResources [C02, C17]
 //@   nopanic
 //@   requires s != nil && req != nil
 //@   assume fsRep(s.resources) && s.opts.PageSize > 0   // server invariants: NewServer builds the sets and a positive page size; add/remove keep fsRep (their contracts)
 //@   modifies *
-//@ func (*Server).listResourceTemplates [C02]
+//@ func (*Server).listResourceTemplates [C02, C17]
 //@   nopanic
 //@   requires s != nil && req != nil
 //@   assume fsRep(s.resourceTemplates) && s.opts.PageSize > 0   // server invariants: NewServer builds the sets and a positive page size; add/remove keep fsRep (their contracts)
@@ -2379,11 +2379,11 @@ package mcp
 // SSEServerTransport.mu guards the closed flag and every write to the hanging GET's ResponseWriter: a message event is
 // written inside the critical section that checked the flag, so two writers never interleave their bytes and nothing
 // is written after the GET exited; exactly one event is written per message, with the encoded message as its data.
-//@ monitor ssemu lock SSEServerTransport.mu as t [C02]
+//@ monitor ssemu lock SSEServerTransport.mu as t [C02, C19, C01]
 //@   protects fields(SSEServerTransport.closed)
 //@   trust-section (*SSEServerTransport).ServeHTTP
 //@   trust-section (*SSEServerTransport).Connect
-//@ func (*sseServerConn).Write [C02]
+//@ func (*sseServerConn).Write [C02, C19, C01]
 //@   track writeEvent as emit
 //@   track EncodeMessage as encode
 //@   requires s != nil && s.t != nil
@@ -2405,7 +2405,7 @@ package mcp
 
 // cannotMakeRequests: exactly the streamable server connections that are stateless or have no session id (the ones
 // whose Write rejects every server-to-client request).
-//@ func cannotMakeRequests [C13]
+//@ func cannotMakeRequests [C13, C10]
 //@   nopanic
 //@   ensures @exactly-the-requestless-streamable-connections result <==> (typeIs(conn, *streamableServerConn) && conn.(*streamableServerConn) != nil && (conn.(*streamableServerConn).stateless || conn.(*streamableServerConn).sessionID == ""))
 
